@@ -187,6 +187,10 @@ func (p *Program) classifyErrUse(fn *ssa.Function, errv ssa.Value) (string, stri
 					}
 				case *ssa.Global:
 					up("stored", "stored to a package variable")
+				case *ssa.Parameter:
+					// `*err = ...` through an *error parameter: the caller's (named result)
+					// variable receives it, as with a captured variable
+					up("returned", "stored through the *error parameter "+a.Name())
 				}
 			case ssa.CallInstruction:
 				cc := x.Common()
@@ -559,6 +563,9 @@ func checkErrorsExaminedOnEveryPath(p *Program, r *Result, pkgs []string) {
 				}
 				name := tb.resolvedCalleeName(&c.Call)
 				if _, never := neverFails[name]; never {
+					continue
+				}
+				if advisoryQueries[name] {
 					continue
 				}
 				// values that carry E: E itself, conversions, merges, wrappers
@@ -1118,4 +1125,11 @@ func contradictoryNilFacts(facts []Atom) bool {
 		}
 	}
 	return false
+}
+
+// advisoryQueries: calls that only look at file metadata. Their failure loses nothing of the
+// data that flows through the program; code that uses the answer to refuse something earlier
+// (`if fi, err := f.Stat(); err == nil && fi.IsDir()`) may pass over the error.
+var advisoryQueries = map[string]bool{
+	"(*os.File).Stat": true, "os.Stat": true, "os.Lstat": true,
 }
